@@ -316,7 +316,7 @@ class Responder(object):
         """
         Close any resources
         """
-        if not self.closed and not self.ended:
+        if self.started and not self.closed and not self.ended:
             self.write(b'')  # in case chunked send empty chunk to terminate
         self.ended = True
         self.closed = True
